@@ -192,6 +192,9 @@ fn simpler_step(s: &Step) -> Vec<Step> {
             if spec.batched {
                 out.push(Subscribe(ConsumerSpec { batched: false, ..spec.clone() }));
             }
+            if spec.same_waker {
+                out.push(Subscribe(ConsumerSpec { same_waker: false, ..spec.clone() }));
+            }
             for k in 0..spec.chain.len() {
                 let mut c = spec.chain.clone();
                 c.remove(k);
